@@ -21,7 +21,7 @@ ASSUMPTIONS = ["linkify-generated pairs come from a stub linkifier (linkify-it-p
 def floors(tier):
     q = tier == "quick"
     return {"streams": 100000 if q else 2000000, "pairs.inline": 20000, "pairs.block": 50000, "image_children_streams": 2000,
-            "pairs.linkify": 100, "trees_built": 100000 if q else 2000000, "api.parseInline": 5000, "strike_lone_marker_docs": 20}
+            "pairs.linkify": 100, "trees_built": 100000 if q else 2000000, "api.parseInline": 5000, "strike_lone_marker_docs": 20, "wl.path_families": 50}
 
 
 def check_stream(tokens, layer, ctx=None, path="top", inline_mode=False):
@@ -104,6 +104,14 @@ def examine(ctx, api, conf, src, md=None):
     try:
         SyntaxTreeNode(toks)
         ctx.count("trees_built")
+    except RecursionError as e:
+        depth = max((c.level for t in toks for c in (t.children or [])), default=0) + max((t.level for t in toks), default=0)
+        if depth >= 250:
+            # known finding: the tree is built recursively (about 3 Python frames per nesting level) and emphasis nesting is not
+            # limited by maxNesting; classified ONLY for streams nested at least 250 deep
+            errs.append(("tree-construction:recursion-depth", f"SyntaxTreeNode raised RecursionError on a well-formed stream nested {depth} deep"))
+        else:
+            errs.append(("tree-construction", f"SyntaxTreeNode raised RecursionError at nesting depth {depth}"))
     except Exception as e:
         errs.append(("tree-construction", f"SyntaxTreeNode raised {type(e).__name__}: {e}"))
     ctx.count("streams")
@@ -151,6 +159,14 @@ def run(ctx):
         check_case(ctx, case)
         if kind != "lines":
             ctx.sample({"api": api, "conf": conf, "src": src[:160], "shape": shape(ctx._last_tokens)[:300] if hasattr(ctx, "_last_tokens") else ""}, every=1499)
+    # W-path at moderate size: structures that only exist in large inputs (limits, cut-offs, saturations)
+    from vf import families as F
+    fams = sorted(F.FAMILIES)
+    for i, fam in enumerate(fams):
+        for size, conf in ((2500, W.PANEL[2]), (2500, W.PANEL[1]), (6000, W.PANEL[6])):
+            if ctx.mine(i * 3 + size) or not ctx.quick:
+                ctx.count("wl.path_families")
+                check_case(ctx, {"api": "parse", "conf": conf, "src": F.build(fam, size)}, minimize=False)
     # dedicated inline nests: images in links in images, emphasis x strikethrough runs, linkify
     confs = [W.PANEL[2], W.PANEL[6], W.PANEL[1], {"preset": "gfm-like", "stub_linkify": True, "options": {"typographer": True}}]
     atoms = ["![", "[", "](u)", "](u \"t\")", "*", "**", "_", "~~", "~~~~~", "~", "~~~", "~~a~~~", "~~~]", "***", "__", "`", "a", " ", "http://x.y/z", "www.ex.com", "a@b.co",
